@@ -34,7 +34,7 @@ for d in sorted(glob.glob("/verif/seeded/*/")):
         continue
     out = {}
     for c in checks:
-        r = subprocess.run(["/verif/check", c], env=env, capture_output=True, text=True)
+        r = subprocess.run([os.environ.get("VX_CHECK", "/verif/check"), c], env=env, capture_output=True, text=True)
         first = next((l for l in r.stdout.splitlines() if l.startswith("VIOLATION")), "")
         out[c] = {"exit": r.returncode, "line": first}
         print(key, c, r.returncode, first[:110], flush=True)
